@@ -708,6 +708,22 @@ def checked_fork(op):
         if a is None or b is None or wd is None or ty in SIGNED:
             return None
         res = ("ret", st["ncall"], "checked")
+        if op == "mul":
+            # by a constant: the product is linear
+            if not (a.is_const() or b.is_const()):
+                return None
+            r = a.scale(b.k) if b.is_const() else b.scale(a.k)
+            w.num.types[res] = ty
+            s1, s0 = w.fork(st), w.fork(st)
+            ra = w.num.aff(res)
+            s1["log"].append(("lin", [le(const(0), r), le(r, const((1 << wd) - 1)), le(ra, r), le(r, ra)]))
+            s0["log"].append(("lin", [le(const(1 << wd), r)]))
+            out = []
+            if w.state_feasible(s1):
+                out.append({"state": s1, "res": ("agg", "adt", "std::option::Option", "Some", (res,), ("0",))})
+            if w.state_feasible(s0):
+                out.append({"state": s0, "res": ("agg", "adt", "std::option::Option", "None", (), ())})
+            return out or None
         r = a + b if op == "add" else a - b
         s1, s0 = w.fork(st), w.fork(st)
         some = ("agg", "adt", "std::option::Option", "Some", (("lincomb", ((1, args[0]), (1 if op == "add" else -1, args[1])), 0),), ("0",))
@@ -726,6 +742,7 @@ def checked_fork(op):
 for _ty in ("usize", "u64", "u32", "u16", "u8", "u128"):
     reg("core::num::<impl %s>::checked_sub" % _ty, fork=checked_fork("sub"))
     reg("core::num::<impl %s>::checked_add" % _ty, fork=checked_fork("add"))
+    reg("core::num::<impl %s>::checked_mul" % _ty, fork=checked_fork("mul"))
 
 
 # fixed-size chunk views of a slice (std docs)
@@ -776,3 +793,41 @@ def split_chunk_fork(w, st, t, args):
 
 reg(["core::slice::<impl [T]>::split_first_chunk", "core::slice::<impl [T]>::split_last_chunk",
      "core::slice::<impl [T]>::split_first_chunk_mut", "core::slice::<impl [T]>::split_last_chunk_mut"], fork=split_chunk_fork)
+
+
+# saturating arithmetic (std docs): the mathematical result clamped to the type
+def saturating_fork(op):
+    def f(w, st, t, args):
+        a, b = w.num.aff(args[0]), w.num.aff(args[1])
+        ty = w.num.ty_of(args[0])
+        wd = w.cfg.width(ty)
+        if a is None or b is None or wd is None or ty in SIGNED:
+            return None
+        if op == "mul":
+            if not (a.is_const() or b.is_const()):
+                return None
+            r = a.scale(b.k) if b.is_const() else b.scale(a.k)
+        else:
+            r = a + b if op == "add" else a - b
+        res = ("ret", st["ncall"], "saturating")
+        w.num.types[res] = ty
+        ra = w.num.aff(res)
+        mx = const((1 << wd) - 1)
+        s_in, s_out = w.fork(st), w.fork(st)
+        s_in["log"].append(("lin", [le(const(0), r), le(r, mx), le(ra, r), le(r, ra)]))
+        if op == "sub":
+            s_out["log"].append(("lin", [le(r, const(-1)), le(ra, const(0)), le(const(0), ra)]))
+        else:
+            s_out["log"].append(("lin", [le(mx + const(1), r), le(ra, mx), le(mx, ra)]))
+        out = []
+        if w.state_feasible(s_in):
+            out.append({"state": s_in, "res": res})
+        if w.state_feasible(s_out):
+            out.append({"state": s_out, "res": res})
+        return out or None
+    return f
+
+
+for _ty in ("usize", "u64", "u32", "u16", "u8", "u128"):
+    for _op in ("add", "sub", "mul"):
+        reg("core::num::<impl %s>::saturating_%s" % (_ty, _op), fork=saturating_fork(_op))
